@@ -46,6 +46,7 @@ def explore(col, kind, calls, depth, shard_i, nshards, cap):
     """all call sequences up to `depth` (symbolic choice of each call), pruned at states already explored at least as deeply"""
     C = [z3.Int(f'call{i}') for i in range(depth)]
     visited = {}
+    reps, recent = {}, []       # live representative objects per observed state (for == across histories)
     first = [k for k in range(len(calls)) if k % nshards == shard_i]
     for f0 in first:
         eng = symx.Engine(assumptions=[C[0] == f0] + [z3.And(c >= 0, c < len(calls)) for c in C])
@@ -57,10 +58,24 @@ def explore(col, kind, calls, depth, shard_i, nshards, cap):
                 k = symx.choose(C[step], 0, len(calls), free=step > 0)
                 seq.append(calls[k])
                 idx.append(k)
+                out = {}
                 if kind == 'graph':
-                    problems, obs, trace = R.play_graph(fggs, seq)
+                    problems, obs, trace = R.play_graph(fggs, seq, out=out)
                 else:
-                    problems, obs, trace = R.play_hrg(fggs, seq, fgg=(kind == 'fgg'))
+                    problems, obs, trace = R.play_hrg(fggs, seq, fgg=(kind == 'fgg'), out=out)
+                if not problems and 'obj' in out:
+                    # == against representatives of states reached through other call sequences: the same state (equal) and the most recent other states (different)
+                    rep = reps.get(obs)
+                    others = [rep] if rep is not None and rep[1] != list(seq) else []
+                    others += [r for r in recent if r[2] != obs][:2]
+                    for other_obj, other_seq, other_obs in others:
+                        pr = R.compare_objects(out['obj'], obs, other_obj, other_obs)
+                        if pr:
+                            return seq, [pr[0] + ' (other: ' + json.dumps(other_seq) + ')'], trace, other_seq
+                    if obs not in reps:
+                        reps[obs] = (out['obj'], list(seq), obs)
+                        recent.insert(0, reps[obs])
+                        del recent[6:]
                 if problems:
                     return seq, problems, trace
                 if cap(obs):
@@ -77,13 +92,14 @@ def explore(col, kind, calls, depth, shard_i, nshards, cap):
             if p.exc is not None:
                 col.violation(kind, {'kind': kind, 'exception': type(p.exc).__name__}, {'kind': kind, 'calls': []}, note=repr(p.exc))
                 continue
-            seq, problems, trace = p.value
+            seq, problems, trace = p.value[:3]
+            other_seq = p.value[3] if len(p.value) > 3 else None
             col.case((kind, json.dumps(seq)), nontrivial=len(seq) >= 2, sample={'kind': kind, 'calls': seq, 'outcomes': [t[1] for t in trace]})
             col.check(not problems)
             if problems:
                 msg = problems[0]
-                col.violation(kind, {'kind': kind, 'problem': ' '.join(w for w in msg.split() if w not in ('f', 'g', 'X', 'c'))[:70], 'last_call': seq[-1][0]},
-                              {'kind': kind, 'calls': seq}, note=msg)
+                col.violation(kind, {'kind': kind, 'problem': ' '.join(w for w in msg.split('(other:')[0].split() if w not in ('f', 'g', 'X', 'c'))[:70], 'last_call': seq[-1][0]},
+                              {'kind': kind, 'calls': seq, 'other_calls': other_seq}, note=msg)
     return len(visited)
 
 
@@ -119,7 +135,8 @@ def main():
              'add_node_label, add_domain, add_factor / new_finite_factor (right and wrong arity/domain, rebinding), copy. Each call is a symbolic choice; sequences are pruned at states already explored at least as deeply.' % (d, d + 1),
         explanation='The call sequence is a vector of solver variables; the symbolic executor explores every sequence inside the bound (solver-complete partition of the choices). After every call: the representation invariant (attachment and external nodes are '
                     'nodes of the graph, unique ids, one label per edge-label name, typed edges, lhs type = rhs type, start registered, factors match domains) and, if the call raised, that every public observation is unchanged; copy: equal, observation-equal '
-                    '(incl. label tables), independent (mutating the copy, incl. factor weights, leaves the original unchanged).',
+                    '(incl. label tables), independent (mutating the copy, incl. factor weights, leaves the original unchanged). == across histories: an object is compared with live representatives of states reached through OTHER call sequences -- '
+                    'equal when every observation agrees (explicit ids), unequal when nodes, edges, externals, rules, start or label tables differ, symmetric, != its negation.',
         bounds={'graph_nodes': 3, 'graph_edges': 2, 'rules': 3, 'sequence_length': d},
         assumptions=['implicit ids are distinct (CPython id of live objects)'],
         exhaustive=True, technique='bounded symbolic execution over API call sequences (z3 path forking) with invariant and frame checks')
